@@ -315,7 +315,21 @@ def swap_class(inst, base, proto, iface, log):
     ns = {"_hit": c01._hit}
     for m, kind in public_members(base):
         if c01.overrides_mro(cls, base, m):
-            ns[m] = c01._mk_member(m, kind)
+            real = getattr(cls, m, None)
+            if kind == "prop" and isinstance(real, property) and m != "volume":
+                # a recorded property still answers from the object's REAL state (a freshly set-up Companion
+                # object reports PowerState.Unknown, ...): routing that depends on such a value is exercised
+                def mk(m=m, real=real):
+                    def fget(self):
+                        self._hit(m)
+                        try:
+                            return real.fget(self)
+                        except Exception:  # noqa
+                            return None
+                    return property(fget)
+                ns[m] = mk()
+            else:
+                ns[m] = c01._mk_member(m, kind)
     rec = type("Rec" + cls.__name__, (cls,), ns)
     inst.__class__ = rec
     inst._proto, inst._iface, inst._log = proto, iface, log
